@@ -98,11 +98,12 @@ const (
 	PvUnwrapPanics  // an error with a harmless Error() whose Unwrap() panics (errors.Is / errors.As on it blow up)
 	PvIsPanics      // an error with a harmless Error() whose Is(target) panics
 	PvInlinedHelper // an error raised through a tiny must(err) helper the compiler inlines into the handler
+	PvLineNoFile    // a string panic raised from a //line-mapped position in a file that does not exist (generated code, a binary deployed without its sources)
 	pvMax
 )
 
 // PanicKindNames for reports.
-var PanicKindNames = []string{"string", "error", "runtime:nil-map", "runtime:index", "struct", "http.ErrAbortHandler", "wrapped-error", "int", "slice-typed-error", "map", "func", "error-with-panicking-Error()", "inject.InterfaceOf-panic", "io.EOF", "context.Canceled", "context.DeadlineExceeded", "wrapped-EPIPE", "wrapped-ECONNRESET", "fs.ErrNotExist", "net.ErrClosed", "http.ErrHandlerTimeout", "fmt.Formatter", "has-Public()", "line-mapped-past-eof", "multi-byte-message", "typed-nil-*fs.PathError", "error-with-panicking-Unwrap()", "error-with-panicking-Is()", "raised-in-inlined-helper"}
+var PanicKindNames = []string{"string", "error", "runtime:nil-map", "runtime:index", "struct", "http.ErrAbortHandler", "wrapped-error", "int", "slice-typed-error", "map", "func", "error-with-panicking-Error()", "inject.InterfaceOf-panic", "io.EOF", "context.Canceled", "context.DeadlineExceeded", "wrapped-EPIPE", "wrapped-ECONNRESET", "fs.ErrNotExist", "net.ErrClosed", "http.ErrHandlerTimeout", "fmt.Formatter", "has-Public()", "line-mapped-past-eof", "multi-byte-message", "typed-nil-*fs.PathError", "error-with-panicking-Unwrap()", "error-with-panicking-Is()", "raised-in-inlined-helper", "line-mapped-to-missing-file"}
 
 type brokenUnwrap struct{ tok string }
 
@@ -184,6 +185,8 @@ func raise(kind int, tok string, c flamego.Context) {
 		panic(publicValue{tok})
 	case PvLineMapped:
 		raiseFromMappedLine(tok)
+	case PvLineNoFile:
+		raiseFromMissingFile(tok)
 	case PvTypedNilStd:
 		panic((*fs.PathError)(nil))
 	case PvUnwrapPanics:
